@@ -1,6 +1,7 @@
 (* C09 - Lie-group helpers. Property theorems only; proofs live in Evo.LieProofs / Evo.LinalgR. *)
 From Coq Require Import Reals List.
-From Evo Require Import Num Linalg LinalgR Lie LieProofs.
+From Evo Require Import Num Linalg LinalgR Lie LieProofs NpDsl LieTie.
+From EvoGen Require Import LieGen.
 Local Open Scope R_scope.
 
 Theorem C09_vee_hat : forall v : V3R, vee (hat v) = v.
@@ -110,3 +111,26 @@ Theorem C09_rejects_wrong_bottom_row : forall atol rtol : R, forall (p : PoseR) 
   (b0, b1, b2, b3) <> (0, 0, 0, 1) -> is_se3_b atol rtol d p (b0, b1, b2, b3) = false.
 Proof. exact is_se3_rejects_bottom. Qed.
 Print Assumptions C09_rejects_wrong_bottom_row.
+
+(* ---- translator tie: EvoGen.LieGen is re-translated from evo/core/lie_algebra.py on every run ---- *)
+(* for EVERY number system (reals of the theorems, binary64 of the correspondence runs) the translated functions are
+   the model's functions *)
+Theorem C09_translated_source_is_the_model : forall (T : Type) (ops : NumOps T) (cbrt : T -> T) (rtol atol : T),
+  (forall v : V3 T, hat_gen v = hat v) /\ (forall m : M3 T, vee_gen m = vee m) /\
+  (forall (r : M3 T) (t : V3 T), se3_gen r t = mkPose r t) /\ (forall (r : M3 T) (t : V3 T) (s : T), sim3_gen r t s = sim3 r t s) /\
+  (forall p : Pose T, so3_from_se3_gen p = prot p) /\ (forall p : Pose T, se3_inverse_gen p = se3_inverse p) /\
+  (forall a : Pose T, sim3_scale_gen cbrt a = cbrt (det (prot a))) /\
+  (forall a : Pose T, sim3_inverse_gen cbrt a = sim3_inverse_with (cbrt (det (prot a))) a) /\
+  (forall r1 r2 : M3 T, relative_so3_gen r1 r2 = relative_so3 r1 r2) /\
+  (forall p1 p2 : Pose T, relative_se3_gen p1 p2 = relative_se3 p1 p2) /\
+  (forall r : M3 T, is_so3_gen rtol atol r = is_so3_b atol rtol (det r) r).
+Proof. exact (@lie_gen_is_model). Qed.
+Print Assumptions C09_translated_source_is_the_model.
+(* hence, e.g., the inverse laws hold of the translated source itself *)
+Theorem C09_translated_se3_inverse_is_inverse : forall p : PoseR, SE3 p ->
+  pmul (se3_inverse_gen p) p = pI /\ pmul p (se3_inverse_gen p) = pI /\ relative_se3_gen p p = pI.
+Proof.
+  intros p H. rewrite relative_se3_gen_is_model, se3_inverse_gen_is_model.
+  exact (conj (se3_inverse_left p H) (conj (se3_inverse_right p H) (relative_se3_self p H))).
+Qed.
+Print Assumptions C09_translated_se3_inverse_is_inverse.
